@@ -153,6 +153,60 @@ def run(check, prog):
     c14.r8_uniform_guess(check, prog, Canon())
     tempered_stage_count(check, prog)
     shared_objects_aliased(check, prog)
+    scalars_never_aliased(check, prog)
+
+
+def scalars_never_aliased(check, prog):
+    """R9: numbers, strings and booleans are written in place, never as an anchor
+    and a reference.  Whether two equal numbers are one object is an accident of
+    the interpreter (small ints and the constructor's defaults are, values that
+    came out of NumPy are not), so anchors on scalars make the text of an object
+    differ from the text of its own reloaded copy.  The library replaces PyYAML's
+    `ignore_aliases`; its scalar test has to be reached by a scalar, i.e. must
+    not come after an operation a scalar does not support (len) in the same try
+    block, whose TypeError handler makes the answer None."""
+    import ast
+    q = 'holopy.core.io.serialize.ignore_aliases'
+    if not prog.has_func(q):
+        check.note('R9', 'no replacement of ignore_aliases: PyYAML\'s own applies')
+        return
+    fd = prog.func(q)
+    arg = fd.args.args[0].arg
+
+    def flat_stmts(body):
+        for st in body:
+            if isinstance(st, ast.Try):
+                yield from flat_stmts(st.body)
+            else:
+                yield st
+    first_len = first_scalar = None
+    for i, st in enumerate(flat_stmts(fd.body)):
+        test = st.test if isinstance(st, ast.If) else None
+        where = test if test is not None else st
+        for n in ast.walk(where):
+            if isinstance(n, ast.Call) and isinstance(n.func, ast.Name) and \
+                    n.func.id == 'len' and n.args and \
+                    isinstance(n.args[0], ast.Name) and n.args[0].id == arg:
+                # (`x is None or len(x)`: evaluated for every x that is not None)
+                first_len = i if first_len is None else first_len
+        if test is not None and isinstance(test, ast.Call) and \
+                isinstance(test.func, ast.Name) and test.func.id == 'isinstance' and \
+                isinstance(test.args[0], ast.Name) and test.args[0].id == arg:
+            kinds = {e.id for e in ast.walk(test.args[1]) if isinstance(e, ast.Name)}
+            returns_true = any(isinstance(r, ast.Return) and
+                               isinstance(r.value, ast.Constant) and r.value.value is True
+                               for r in st.body)
+            if {'int', 'float', 'str'} <= kinds and returns_true:
+                first_scalar = i if first_scalar is None else first_scalar
+    ok = first_scalar is not None and (first_len is None or first_scalar < first_len)
+    check.require(ok, 'R9-scalars-never-aliased', 'serialize.ignore_aliases',
+                  'the scalar test is reached by a scalar', prog.loc(q, fd),
+                  fail_detail='len(%s) is evaluated before the isinstance test: for a '
+                  'number it raises TypeError, the handler falls through and the '
+                  'function returns None -- equal ints that happen to be one object '
+                  'are written as &id001 / *id001, and the text of a reloaded object '
+                  'differs from the text it was loaded from' % arg
+                  if first_scalar is not None else 'no scalar test returning True')
 
 
 def shared_objects_aliased(check, prog):
@@ -351,10 +405,33 @@ def r1_r2(check, prog, scope, floor=120):
 # ----------------------------------------------------------------------
 def r3_saver_filter(check, prog):
     q = HPO + '._iteritems'
-    it = Interp(prog, max_depth=3)
+    # a module-level predicate the filter may consult about the value: whether a
+    # plain function can be found again under its name (one that cannot would be
+    # written and then refused by every loader).  Kept opaque here and decided
+    # separately: it must hold for everything that is not a function
+    NAMED = HPO.rpartition('.')[0] + '.found_by_name'
+    has_named = prog.has_func(NAMED)
+    it = Interp(prog, max_depth=3, opaque=[NAMED] if has_named else [])
     res = it.analyze(q)
     ys = [e for e in it.effects if e['kind'] == 'yield' and e['func'] == q]
     check.floor('yield sites in HoloPyObject._iteritems', len(ys), 1)
+    if has_named:
+        nfd = prog.func(NAMED)
+        arg = sym(nfd.args.args[0].arg)
+
+        def not_a_function(t):
+            if t[0] == 'call' and t[1] == 'isinstance' and t[2] and t[2][0] == arg:
+                kinds = show(t[2][1])
+                if 'FunctionType' in kinds or 'partial' in kinds:
+                    return False
+            return None
+        nit = Interp(prog, max_depth=0, decide=not_a_function)
+        nres = nit.analyze(NAMED)
+        check.require(nres.ret == ('const', True), 'R3-filter-drops-only-functions',
+                      'found_by_name', 'holds for every value that is not a plain '
+                      'function or a partial', prog.loc(NAMED, nfd),
+                      fail_detail='returns %s for a value that is not a function'
+                      % show(nres.ret)[:100])
     fd = prog.func(q)
     loc = prog.loc(q, fd)
     for y in ys:
@@ -376,8 +453,14 @@ def r3_saver_filter(check, prog):
                 x[0] == 'call' and isinstance(x[1], str) and 'signature' in x[1]
                 for x in subterms(t))
 
+        def named(t):
+            return has_named and t[0] == 'call' and t[1] == NAMED
+
         def atom_value_not_none(t):
-            # hypothesis A: the attribute value is some non-None object
+            # hypothesis A: the attribute value is some non-None object (and not
+            # a function no loader could find)
+            if named(t):
+                return True
             if t[0] == 'cmp' and t[1] in ('is not', '!=') and is_value(t[2]) \
                     and t[3] == NONE:
                 return True
@@ -388,6 +471,8 @@ def r3_saver_filter(check, prog):
 
         def atom_explicit_none(t):
             # hypothesis B: attribute exists, is None, default is not None
+            if named(t):
+                return True
             if t[0] == 'cmp' and t[3] == NONE and is_value(t[2]):
                 return t[1] in ('is', '==')
             if t[0] == 'call' and t[1] == 'hasattr':
